@@ -256,7 +256,10 @@ Section CacheProofs.
   Lemma exec_inv s st : Inv st -> Inv (fst (exec gen capacity s st)).
   Proof.
     intros HI. pose proof HI as HI0. apply Inv_split in HI. destruct HI as [HC HT].
-    destruct s as [t k | t | t]; cbn [exec].
+    destruct s as [t k | t | t | t]; cbn [exec].
+    4: { unfold do_abort. destruct (get_pc t (threads st)) eqn:Epc; cbn [fst]; try exact HI0;
+         (apply Inv_split; cbn [plans order threads]; split; [exact HC|];
+          apply ThInv_set; [exact HT | discriminate]). }
     - unfold do_lookup. destruct (get_pc t (threads st)) eqn:Epc; cbn [fst]; try exact HI0.
       destruct (assoc_get k (plans st)) eqn:Eg; cbn [fst]; [exact HI0|].
       apply Inv_split. cbn [plans order threads]. split; [exact HC|].
@@ -282,7 +285,8 @@ Section CacheProofs.
   Proof.
     intros HI. apply Inv_split in HI. destruct HI as [HC HT].
     destruct HC as (_ & _ & _ & _ & _ & Hpl).
-    destruct s as [t0 k0 | t0 | t0]; cbn [exec].
+    destruct s as [t0 k0 | t0 | t0 | t0]; cbn [exec].
+    4: { unfold do_abort. destruct (get_pc t0 (threads st)); cbn [snd In]; contradiction. }
     - unfold do_lookup. destruct (get_pc t0 (threads st)) eqn:Epc; cbn [snd In]; try contradiction.
       destruct (assoc_get k0 (plans st)) eqn:Eg; cbn [snd In]; [|contradiction].
       intros [H|[]]. injection H as <- <- <-. apply Hpl. apply assoc_get_some_in. exact Eg.
@@ -372,7 +376,9 @@ Section CacheProofs.
     get_pc t (threads (fst (exec gen capacity s st))) = get_pc t (threads st) /\
     rets_of t (snd (exec gen capacity s st)) = [].
   Proof.
-    intros Hne. destruct s as [t0 k0 | t0 | t0]; cbn [step_thread] in Hne; cbn [exec].
+    intros Hne. destruct s as [t0 k0 | t0 | t0 | t0]; cbn [step_thread] in Hne; cbn [exec].
+    4: { unfold do_abort. destruct (get_pc t0 (threads st)); cbn [fst snd threads rets_of filter]; auto;
+         rewrite get_set_pc_other by exact Hne; auto. }
     - unfold do_lookup. destruct (get_pc t0 (threads st)); cbn [fst snd rets_of filter]; auto.
       destruct (assoc_get k0 (plans st)); cbn [fst snd threads rets_of filter ev_thread].
       + apply Nat.eqb_neq in Hne. rewrite Hne. auto.
@@ -486,6 +492,21 @@ Section CacheProofs.
       cbn [rets_of filter app]. fold (rets_of t (snd (exec gen capacity (Insert t) st4))).
       rewrite R5. auto.
   Qed.
+
+  (* ---------- a request that dies between its critical sections ---------- *)
+  Lemma abort_harmless st t :
+    let st' := fst (exec gen capacity (Abort t) st) in
+    plans st' = plans st /\ order st' = order st /\
+    snd (exec gen capacity (Abort t) st) = [] /\
+    get_pc t (threads st') = Idle /\
+    (forall t', t' <> t -> get_pc t' (threads st') = get_pc t' (threads st)).
+  Proof.
+    cbn [exec]. unfold do_abort. destruct (get_pc t (threads st)) eqn:Epc; cbn [fst snd plans order threads].
+    - repeat split; auto.
+    - repeat split; auto; [apply get_set_pc_same | intros t' Hne; apply get_set_pc_other; auto].
+    - repeat split; auto; [apply get_set_pc_same | intros t' Hne; apply get_set_pc_other; auto].
+  Qed.
+
 End CacheProofs.
 
 Arguments Inv {plan} gen capacity st.
